@@ -1112,6 +1112,60 @@ def hostile_state_program(rng, lanes=ALL_LANES):
     return prog
 
 
+def mixed_program(rng, lanes=ALL_LANES, nparts=4, scale=1):
+    """Cross-feature interactions: several small programs of DIFFERENT generators (histories with
+    removals of all kinds, round trips, commits with declared values, abandoned writers, damaged
+    content and retrievals, links, algorithms) run on ONE cache, their steps randomly interleaved
+    (each program's own order kept; handle aliases and external file names made unique).  Any
+    interleaving is a valid input: the contract, not the generator, says what must happen."""
+    makers = [
+        lambda: history_program(rng, 10 * scale, lanes=lanes, nkeys=3, ndata=3, removal_weight=0.3, bulk=True,
+                                full_opts=True, plant=True, garbage=True, algos=("sha256", "sha1")),
+        lambda: roundtrip_program(rng, 3 * scale, lanes=lanes),
+        lambda: commit_program(rng, 4 * scale, lanes=lanes),
+        lambda: abandon_program(rng, 4 * scale, lanes=lanes),
+        lambda: retrieve_program(rng, 3 * scale, lanes=lanes),
+        lambda: link_program(rng, 3 * scale, lanes=lanes),
+        lambda: algo_program(rng, 3 * scale, lanes=lanes),
+    ]
+    subs = [m() for m in rng.sample(makers, nparts)]
+    out = {"keys": {}, "blobs": {}, "steps": []}
+    queues = []
+    def rekey(v, m):
+        if isinstance(v, dict):
+            return {k: (m.get(x, x) if k == "key" and isinstance(x, str) else rekey(x, m)) for k, x in v.items()}
+        if isinstance(v, list):
+            return [rekey(x, m) for x in v]
+        return v
+    for i, sp in enumerate(subs):
+        # keys are private to each part (two parts picking the same hostile key would make one
+        # part's destinations hard links of ANOTHER part's content - the caller's own aliasing);
+        # what the parts share is the cache: listings, clear, the store, the temp area
+        m = {}
+        for kid, ks in sp["keys"].items():
+            ns = "%s~p%d" % (ks, i)
+            m[kid] = key_id(ns)
+            out["keys"][m[kid]] = ns
+        out["blobs"].update(sp["blobs"])
+        q = []
+        for st in sp["steps"]:
+            st = rekey(dict(st), m)
+            for f in ("as", "h"):
+                if f in st:
+                    st[f] = "p%d-%s" % (i, st[f])
+            for f in ("id", "to", "target"):
+                if f in st and isinstance(st[f], str) and st["op"] in ("env_ext", "extract", "link_to", "open_linker", "env_content"):
+                    st[f] = "p%d-%s" % (i, st[f])
+            q.append(st)
+        queues.append(q)
+    while any(queues):
+        q = rng.choice([x for x in queues if x])
+        for _ in range(rng.randrange(1, 5)):
+            if q:
+                out["steps"].append(q.pop(0))
+    return out
+
+
 def with_lanes(prog, assign):
     """the same program with lanes re-assigned: assign(i, step) -> lane"""
     p = dict(prog)
